@@ -103,6 +103,11 @@ func ParseToken(tokenString string, claims any) ([]byte, error) {
 	if err != nil {
 		return nil, fmt.Errorf("%w: malformed jwt payload: %v", ErrParse, err)
 	}
+	// a payload that is not a JSON object (null, a number, an array ...) carries no claims; JSON null
+	// would moreover leave a pointer target nil, which the verifiers dereference
+	if trimmed := bytes.TrimSpace(payload); len(trimmed) == 0 || trimmed[0] != '{' {
+		return nil, fmt.Errorf("%w: jwt payload is not a JSON object", ErrParse)
+	}
 	err = json.Unmarshal(payload, claims)
 	return payload, err
 }
